@@ -253,7 +253,7 @@ def r2_reads(ctx):
         t = b["term"]
         if t["k"] == "call" and t["callee"].get("key") == Z + "piece_square_hash":
             a = [ex.operand(x) for x in t["args"]]
-            ok = a[0] == ("param", 2) and a[2] == ("param", 3) and any(x[0] == "call" and x[1].endswith("mask_and_shift_from_lowest_one_bit") for x in leaves(a[1]))
+            ok = a[0] == ("param", 2) and a[2] == ("param", 3) and any(x[0] == "call" and (x[1].endswith("mask_and_shift_from_lowest_one_bit") or x[1].endswith("::trailing_zeros")) for x in [a[1]] + list(leaves(a[1])))
     ctx.ob(rid, "occupancy-hash-passes-piece-square-colour", ok, "" if ok else "zobrist_hash_for_occupancy does not call piece_square_hash(piece, lowest-set-bit square, colour)", ctx.where(h))
 
 
@@ -271,7 +271,7 @@ def r3_agreement(ctx):
     f = prog.fns[BB + "zobrist_xor"]
     # every position-changing field make reads must be read by zobrist_xor (clocks excepted: not hashed)
     rights = {n for n in fields if "lost" in n}
-    for n in sorted((used_make - {"get_halfmove_reset"})):
+    for n in sorted((used_make - {"get_halfmove_reset"} - {n_ for n_ in used_make if "previous" in n_})):      # (undo fields: make can only look at them to assert, they change nothing)
         ok = n in used_xor
         ctx.ob(rid, "field-read-by-both|%s" % n, ok, "" if ok else "make applies move field %s but zobrist_xor never reads it: the incremental hash misses that effect" % n, ctx.where(f))
     # castling squares
@@ -360,7 +360,11 @@ def r3_agreement(ctx):
         return out
     om, ox = ep_offset(g, "mask"), ep_offset(f, "shift")
     ok = om == ox and set(om) == {"white", "black"} and om.get("white") == 8 and om.get("black") == -8
-    ctx.ob(rid, "ep-victim-square", ok, "" if ok else "e.p. victim offset: make %s, zobrist_xor %s (expected white +8, black -8 in both)" % (om, ox), ctx.where(f),
+    if not ox or not om:
+        ctx.lost(rid, "the e.p. victim offset in %s (not written as a +8 / -8 under a test of the side)" % ("zobrist_xor" if not ox else "make"))
+        ok = None
+    if ok is not None:
+      ctx.ob(rid, "ep-victim-square", ok, "" if ok else "e.p. victim offset: make %s, zobrist_xor %s (expected white +8, black -8 in both)" % (om, ox), ctx.where(f),
            sample={"make": om, "zobrist_xor": ox})
 
 
